@@ -399,3 +399,74 @@ func renderTo(b *strings.Builder, v interface{}) {
 		}
 	}
 }
+
+// packDoc rebuilds the arrays of a document as consecutive segments of ONE backing array (a document assembled in Go from
+// sub-slices): every array keeps its elements and length, but its capacity reaches into the storage of the arrays laid out
+// behind it, so an append to a slice that belongs to the document overwrites a neighbour.  The layout order is a
+// permutation derived from seed.
+func packDoc(doc interface{}, seed int) interface{} {
+	type slot struct {
+		set func([]interface{})
+		arr []interface{}
+	}
+	var slots []slot
+	var walk func(x interface{}, set func([]interface{}))
+	walk = func(x interface{}, set func([]interface{})) {
+		switch v := x.(type) {
+		case []interface{}:
+			slots = append(slots, slot{set, v})
+			for i := range v {
+				i := i
+				walk(v[i], func(n []interface{}) { v[i] = n })
+			}
+		case map[string]interface{}:
+			keys := make([]string, 0, len(v))
+			for k := range v {
+				keys = append(keys, k)
+			}
+			sort.Strings(keys)
+			for _, k := range keys {
+				k := k
+				walk(v[k], func(n []interface{}) { v[k] = n })
+			}
+		}
+	}
+	var root interface{} = doc
+	walk(doc, func(n []interface{}) { root = n })
+	if len(slots) < 2 {
+		return doc
+	}
+	total := 0
+	for _, s := range slots {
+		total += len(s.arr)
+	}
+	backing := make([]interface{}, total)
+	// a permutation of the slots: rotate and, for odd seeds, reverse
+	order := make([]int, len(slots))
+	for i := range order {
+		order[i] = (i + seed) % len(slots)
+	}
+	if seed%2 == 1 {
+		for i, j := 0, len(order)-1; i < j; i, j = i+1, j-1 {
+			order[i], order[j] = order[j], order[i]
+		}
+	}
+	off := 0
+	packed := make([][]interface{}, len(slots))
+	for _, k := range order {
+		n := len(slots[k].arr)
+		seg := backing[off : off+n]
+		copy(seg, slots[k].arr)
+		packed[k] = seg
+		off += n
+	}
+	// children first: an inner array must be replaced inside the packed copy of its parent
+	for k := len(slots) - 1; k >= 0; k-- {
+		slots[k].set(packed[k])
+	}
+	// the setters above wrote into the ORIGINAL parents; copy parents again so that the packed parents see the packed children
+	for _, k := range order {
+		copy(packed[k], slots[k].arr)
+	}
+	return root
+}
